@@ -4,6 +4,6 @@ cd "$(dirname "$0")/.."
 seeds=${1:-"0 1"}
 for d in seeded/C*/; do id=$(basename $d); for k in 1 2; do
   [ -f $d/patch$k.diff ] || continue
-  tools/seedrun.sh ${id}_$k $(pwd)/$d/patch$k.diff "$seeds" $id 2>&1 | grep "^MUT\|PATCH"
+  tools/seedrun.sh ${id}_$k $(pwd)/$d/patch$k.diff "$seeds" ${id:0:3} 2>&1 | grep "^MUT\|PATCH"
 done; done
 echo SEEDEVAL-DONE
